@@ -291,3 +291,177 @@ def install_rvdata():
     RVData.__getitem__ = icontract.snapshot(_rv_snapshot, name="snap")(
         icontract.ensure(_rv_getitem_post, error=AssertionError)(RVData.__getitem__))
     RVData.__tjverif__ = True
+
+
+# --------------------------------------------------------------------------
+# C17: JokerSamples contracts
+# --------------------------------------------------------------------------
+TWO_PI = 2 * np.pi
+
+
+def _meta_of(s):
+    m = s.tbl.meta
+    tr = m.get("t_ref")
+    return (None if tr is None else float(tr.tcb.mjd), m.get("poly_trend"), m.get("n_offsets"))
+
+
+def _units_of(s):
+    return {k: str(s.tbl[k].unit) if getattr(s.tbl[k], "unit", None) is not None else "" for k in s.tbl.colnames}
+
+
+def _snap_samples(self):
+    import astropy.units as u
+    cols = {}
+    for k in self.tbl.colnames:
+        c = self.tbl[k]
+        cols[k] = (np.array(getattr(c, "value", c), dtype=float, copy=True), getattr(c, "unit", None))
+    return dict(cols=cols, meta=_meta_of(self), units=_units_of(self), n=len(self))
+
+
+def _wrapK_post(self, result, OLD):
+    import astropy.units as u
+    hit("JokerSamples.wrap_K")
+    try:
+        o = OLD.snap
+        K0, Ku = o["cols"]["K"]
+        w0, wu = o["cols"]["omega"]
+        K1 = np.asarray(self.tbl["K"].value, dtype=float)
+        w1 = np.asarray(self.tbl["omega"].value, dtype=float)
+        case = {"n": int(o["n"]), "n_negative": int(np.sum(K0 < 0)), "omega_unit": str(wu)}
+        if result is not self:
+            fire("C17", "wrap_K-returns-other", "wrap_K did not return self", case)
+        if self.tbl["K"].unit != Ku or self.tbl["omega"].unit != wu:
+            fire("C17", "wrap_K-unit-changed", "units changed", case)
+            return True
+        if np.any(K1 < 0):
+            fire("C17", "wrap_K-negative-left", "negative K remains after wrap_K", case)
+        pos = ~(K0 < 0)
+        if not (np.array_equal(K1[pos], K0[pos]) and np.array_equal(w1[pos], w0[pos])):
+            fire("C17", "wrap_K-touches-nonnegative", "a row with K>=0 was modified", case)
+        neg = K0 < 0
+        if np.any(neg):
+            if not np.array_equal(K1[neg], -K0[neg]):
+                fire("C17", "wrap_K-magnitude", "K' != |K| on a wrapped row", case)
+            full = (TWO_PI * u.rad).to_value(wu)
+            half = full / 2
+            d = (w1[neg] - w0[neg] - half) / full
+            if not np.all(np.abs(d - np.round(d)) < 1e-9):
+                fire("C17", "wrap_K-omega-shift", "omega did not move by pi (mod 2pi) on a wrapped row", case)
+            if np.any(w1[neg] < 0) or np.any(w1[neg] >= full * (1 + 1e-15)):
+                fire("C17", "wrap_K-omega-range", "wrapped omega outside [0, 2pi)", case)
+        for k, (v0, un) in o["cols"].items():
+            if k not in ("K", "omega"):
+                if not _nan_eq(v0, np.asarray(getattr(self.tbl[k], "value", self.tbl[k]), dtype=float)):
+                    fire("C17", "wrap_K-other-column", "column %s changed" % k, case)
+        if _meta_of(self) != o["meta"]:
+            fire("C17", "metadata-lost", "wrap_K changed metadata", case)
+    except Exception as e:
+        fire("C17-monitor-error", "monitor-error", "wrap_K: %r" % (e,))
+    return True
+
+
+def _phase_time_post(self, phase, t_ref, result):
+    import astropy.units as u
+    hit("JokerSamples.get_time_with_phase")
+    try:
+        tr = t_ref if t_ref is not None else self.t_ref
+        P = self["P"].to_value(u.day)
+        M0 = self["M0"].to_value(u.rad)
+        ph = u.Quantity(phase).to_value(u.rad)
+        dt = np.atleast_1d((result - tr).to_value(u.day))
+        Mt = TWO_PI * dt / P - M0
+        d = (Mt - ph) / TWO_PI
+        dev = np.abs(d - np.round(d)) * TWO_PI
+        tol = 1e-9 + 1e-12 * (np.abs(M0) + np.abs(ph))
+        if np.any(dev > tol):
+            k = int(np.argmax(dev - tol))
+            fire("C17", "phase-time-wrong",
+                 "mean anomaly at the returned time differs from the requested phase by %.3g rad" % dev[k],
+                 {"P_day": float(np.atleast_1d(P)[k]), "M0": float(np.atleast_1d(M0)[k]), "phase": float(ph)})
+    except Exception as e:
+        fire("C17-monitor-error", "monitor-error", "get_time_with_phase: %r" % (e,))
+    return True
+
+
+def _derived_post_factory(opname):
+    def post(self, result, OLD):
+        hit("JokerSamples." + opname)
+        try:
+            o = OLD.snap
+            case = {"op": opname, "n": int(o["n"]), "meta": o["meta"]}
+            if _meta_of(result) != o["meta"]:
+                fire("C17", "metadata-lost", "%s: (t_ref, poly_trend, n_offsets) %r became %r"
+                     % (opname, o["meta"], _meta_of(result)), case)
+            if _units_of(result) != o["units"]:
+                fire("C17", "units-lost", "%s: units/columns %r became %r" % (opname, o["units"], _units_of(result)), case)
+            if opname == "median_period":
+                P0 = o["cols"]["P"][0]
+                want = np.sort(P0)[len(P0) // 2]
+                Pr = float(np.squeeze(result["P"].value))
+                rows = np.where(P0 == Pr)[0]
+                member = False
+                for j in rows:
+                    if all(_nan_eq(np.squeeze(o["cols"][k][0][j]),
+                                   np.squeeze(np.asarray(getattr(result.tbl[k], "value", result.tbl[k]), dtype=float)))
+                           for k in o["cols"]):
+                        member = True
+                if not member:
+                    fire("C17", "median_period-not-member", "median_period returned a row that is not in the table", case)
+                elif Pr != want:
+                    fire("C17", "median_period-not-median", "median_period P=%r, median order statistic %r" % (Pr, want), case)
+            elif opname == "copy":
+                for k, (v0, un) in o["cols"].items():
+                    v1 = np.asarray(getattr(result.tbl[k], "value", result.tbl[k]), dtype=float)
+                    if not _nan_eq(v0, v1):
+                        fire("C17", "copy-values", "copy changed column %s" % k, case)
+                    if len(v0) and np.shares_memory(v1, np.asarray(getattr(self.tbl[k], "value", self.tbl[k]))):
+                        fire("C17", "copy-aliases", "copy shares memory for column %s" % k, case)
+            elif opname in ("mean", "std"):
+                f = np.mean if opname == "mean" else np.std
+                for k, (v0, un) in o["cols"].items():
+                    v1 = np.asarray(getattr(result.tbl[k], "value", result.tbl[k]), dtype=float)
+                    w = f(v0)
+                    if not (v1.shape == (1,) and (np.isclose(v1[0], w, rtol=1e-12, atol=0, equal_nan=True) or v1[0] == w)):
+                        fire("C17", "%s-values" % opname, "%s of column %s is %r, expected %r" % (opname, k, v1, w), case)
+        except Exception as e:
+            fire("C17-monitor-error", "monitor-error", "%s: %r" % (opname, e))
+        return True
+    post.__name__ = "_%s_post" % opname
+    return post
+
+
+def _getitem_post(self, key, result, OLD):
+    try:
+        if isinstance(key, str):
+            return True
+        hit("JokerSamples.__getitem__")
+        o = OLD.snap
+        case = {"op": "getitem", "key": repr(key)[:80], "n": int(o["n"])}
+        if _meta_of(result) != o["meta"]:
+            fire("C17", "metadata-lost", "getitem: (t_ref, poly_trend, n_offsets) %r became %r"
+                 % (o["meta"], _meta_of(result)), case)
+        if _units_of(result) != o["units"]:
+            fire("C17", "units-lost", "getitem: units/columns changed", case)
+        sel = np.arange(o["n"])[key]
+        for k, (v0, un) in o["cols"].items():
+            v1 = np.atleast_1d(np.asarray(getattr(result.tbl[k], "value", result.tbl[k]), dtype=float))
+            if not _nan_eq(np.atleast_1d(v0[sel]), v1):
+                fire("C17", "getitem-rows", "getitem returned other rows for column %s" % k, case)
+                break
+    except Exception as e:
+        fire("C17-monitor-error", "monitor-error", "getitem: %r" % (e,))
+    return True
+
+
+def install_samples():
+    import icontract
+    from thejoker.samples import JokerSamples as JS
+    if getattr(JS, "__tjverif__", False):
+        return
+    snap = icontract.snapshot(_snap_samples, name="snap")
+    JS.wrap_K = snap(icontract.ensure(_wrapK_post, error=AssertionError)(JS.wrap_K))
+    JS.get_time_with_phase = icontract.ensure(_phase_time_post, error=AssertionError)(JS.get_time_with_phase)
+    for op in ("median_period", "copy", "mean", "std"):
+        setattr(JS, op, snap(icontract.ensure(_derived_post_factory(op), error=AssertionError)(getattr(JS, op))))
+    JS.__getitem__ = snap(icontract.ensure(_getitem_post, error=AssertionError)(JS.__getitem__))
+    JS.__tjverif__ = True
